@@ -343,7 +343,8 @@ fn fresh(dir: &Path, schema_json: &Value) -> anyhow::Result<Index> {
 
 #[derive(Debug)]
 enum AddOutcome {
-  Rejected(String),
+  /// the add error, and what happened afterwards: a rejected document must leave nothing behind
+  Rejected(String, Result<(), String>),
   Accepted { alone: Result<(), String>, batch: Result<(), String>, later_blocked: bool, recovered: Result<(), String> },
   Panic(String),
 }
@@ -354,7 +355,34 @@ fn probe(dir: &Path, s: &SchemaInfo, schema_json: &Value, doc: &Value, valid_poo
     let index = fresh(dir, schema_json)?;
     let mut w = index.writer()?;
     if let Err(e) = w.add_document(&idx::doc(doc)) {
-      return Ok(AddOutcome::Rejected(format!("{e:#}")));
+      // A rejected document must leave nothing behind: (1) the same writer goes on with a valid document;
+      // (2) on a second index the writer is dropped right after the rejection (no commit, no rollback) and a
+      // NEW writer - which inherits whatever the first one left in the log - adds a valid document and commits.
+      let good = valid_pool[0].clone();
+      let want = good.get(&s.doc_id_field).and_then(|v| v.as_str()).unwrap_or("").to_string();
+      let aftermath = (|| -> Result<(), String> {
+        w.add_document(&idx::doc(&good)).map_err(|e| format!("same-writer:valid add after a rejection failed: {e:#}"))?;
+        w.commit().map_err(|e| format!("same-writer:commit after a rejection failed: {e:#}"))?;
+        let ids: Vec<String> = idx::all_docs(&index.reader().map_err(|e| format!("{e:#}"))?).map_err(|e| format!("{e:#}"))?.into_iter().map(|(id, _)| id).collect();
+        if ids != vec![want.clone()] {
+          return Err(format!("same-writer:contents after rejection + valid add + commit are {ids:?}, expected [{want}]"));
+        }
+        let index3 = fresh(&dir.join("r"), schema_json).map_err(|e| format!("{e:#}"))?;
+        {
+          let mut w3 = index3.writer().map_err(|e| format!("{e:#}"))?;
+          let _ = w3.add_document(&idx::doc(doc));
+          // dropped without commit or rollback
+        }
+        let mut w4 = index3.writer().map_err(|e| format!("new-writer:open after a rejection failed: {e:#}"))?;
+        w4.add_document(&idx::doc(&good)).map_err(|e| format!("new-writer:valid add failed: {e:#}"))?;
+        w4.commit().map_err(|e| format!("new-writer:commit failed because of a document that was rejected when it was queued: {e:#}"))?;
+        let ids: Vec<String> = idx::all_docs(&index3.reader().map_err(|e| format!("{e:#}"))?).map_err(|e| format!("{e:#}"))?.into_iter().map(|(id, _)| id).collect();
+        if ids != vec![want.clone()] {
+          return Err(format!("new-writer:contents after rejection + writer re-open + valid add + commit are {ids:?}, expected [{want}]"));
+        }
+        Ok(())
+      })();
+      return Ok(AddOutcome::Rejected(format!("{e:#}"), aftermath));
     }
     let alone = w.commit().map_err(|e| format!("{e:#}"));
     let mut later_blocked = false;
@@ -402,7 +430,7 @@ fn probe(dir: &Path, s: &SchemaInfo, schema_json: &Value, doc: &Value, valid_poo
 fn main() {
   let args: Vec<String> = std::env::args().skip(1).collect();
   let mut ctx = Ctx::from_args("C15", "exploration", &args);
-  ctx.rule = "each case = one random schema (text/keyword/numeric fields, nested objects with child objects, random stored/indexed/fast/nullable flags, doc_id_field _id or pk) and N documents; every document starts schema-valid (all value shapes: absent, null on nullable, scalar, 1-element / multi-valued / empty arrays, nested arrays with nulls and {}); two thirds then receive exactly ONE labelled schema violation (17 labels: id removed/blank/non-string, wrong scalar type, wrong array element type, fractional number in an i64 field, unknown top-level / nested field, null on non-nullable, scalar / array inside nested array, missing required nested property, object where scalar expected; top-level and nested variants). Each document goes to add_document on a fresh in-memory index; if accepted it must commit alone and inside a batch of valid documents (differential a); a labelled mutant must be rejected at add (b); after a failed commit, rollback + valid add + commit must work. evaluations = add decisions + commit decisions judged; a document is non-trivial when it is a mutant or was accepted and committed; distinct = distinct (label, schema, document) hashes.".into();
+  ctx.rule = "each case = one random schema (text/keyword/numeric fields, nested objects with child objects, random stored/indexed/fast/nullable flags, doc_id_field _id or pk) and N documents; every document starts schema-valid (all value shapes: absent, null on nullable, scalar, 1-element / multi-valued / empty arrays, nested arrays with nulls and {}); two thirds then receive exactly ONE labelled schema violation (17 labels: id removed/blank/non-string, wrong scalar type, wrong array element type, fractional number in an i64 field, unknown top-level / nested field, null on non-nullable, scalar / array inside nested array, missing required nested property, object where scalar expected; top-level and nested variants). Each document goes to add_document on a fresh in-memory index; if accepted it must commit alone and inside a batch of valid documents (differential a); a labelled mutant must be rejected at add (b); after a failed commit, rollback + valid add + commit must work; after a REJECTED add, the same writer and - on a second index - a new writer opened after the first was dropped without commit/rollback must be able to add a valid document and commit it, and the index must then hold exactly that document. evaluations = add decisions + commit decisions judged; a document is non-trivial when it is a mutant or was accepted and committed; distinct = distinct (label, schema, document) hashes.".into();
   ctx.assumptions = vec![
     "storage is healthy (InMemory), one writer at a time".into(),
     "a schema-valid document is one that follows README's field description; valid documents being rejected is reported too (signature valid-document-rejected:*) because it would invalidate the mutant labels".into(),
@@ -449,8 +477,13 @@ fn main() {
           l.eval();
           l.fail(format!("panic:{}:{}", label, vcore::ctx::panic_site(&p)), format!("panic while adding/committing a {label} document: {p}"), case(json!(p)));
         }
-        AddOutcome::Rejected(e) => {
+        AddOutcome::Rejected(e, aftermath) => {
           l.eval();
+          l.evals_add(2);
+          if let Err(why) = aftermath {
+            let kind = why.split(':').next().unwrap_or("?").to_string();
+            l.fail(format!("rejected-document-leaves-traces:{kind}:{}", stem(why.splitn(2, ':').nth(1).unwrap_or(""))), format!("a document rejected by add_document still affected later operations: {why}"), case(json!({"add_error": e, "aftermath": why})));
+          }
           l.count(&format!("rejected_at_add[{label}]"), 1);
           if label == "valid" {
             l.fail(format!("valid-document-rejected:{}", stem(&e)), format!("a schema-valid document was rejected by add_document: {e}"), case(json!(e)));
